@@ -12,10 +12,13 @@ from .paths import Engine, Rule, States, path_of
 META = {
     'explanation': 'E-PATH over one iteration of every filter loop of tzdb.transformer.Transformer (state: valid flag, reason recorded, '
                    'entry emitted), kind inference for the local reason collections, name/role-preserving data flow from '
-                   'Transformer.get_data() through tzcompiler.main, TzDbCollector and the generator constructors to the template '
-                   'placeholders, call/assignment chain of transform(), ast lints (identical operands, % formatting arity), and the '
-                   'interval rules of the silent "unused rule" removal: linear forms of the bounds passed to find_matching_rules against '
-                   'the comparator it applies, and the strict "TO year < year" / "latest date" selection of find_latest_prior_rules.',
+                   'Transformer.get_data() through tzcompiler.main, TzDbCollector and the generator constructors; the last step - '
+                   'each removed/notable collection comes out, with its reasons, under the heading of its own role - is read off the '
+                   'zone_infos.h / zone_policies.h that ArduinoGenerator.generate_files() writes for a tagged miniature database '
+                   '(E-SEQ over the Python ast, acv/pyeval.py + acv/genrender.py); call/assignment chain of transform(), ast lints '
+                   '(identical operands, % formatting arity); the silent "unused rule" removal is interpreted: '
+                   '_mark_rules_used_by_zones + _remove_rules_unused on seven zone shapes x all policies of one or two rules whose '
+                   'FROM/TO years sit on and around the era boundaries - every rule an era can select survives.',
     'decided': 'every zone/policy/link a Transformer filter does not pass on is recorded with a reason in a collection of its own '
                'kind that is merged into the matching all_removed_* / all_notable_* attribute; those attributes reach the '
                'generated headers under the matching role; every filter is called and its result is what transform() stores; '
